@@ -65,9 +65,10 @@ type Ctx struct {
 	fails     []Failure
 	trivial   bool
 	counters  map[string]int64
-	history   []int // set when replaying a BFS history
-	noRerun   bool  // the body is an explicit-state search; never re-run it for samples
-	cost      int   // deviation cost spent so far in this execution
+	history   []int               // set when replaying a BFS history
+	noRerun   bool                // the body is an explicit-state search; never re-run it for samples
+	cases     map[string]struct{} // distinct (case, outcome) pairs reported by a family-style body
+	cost      int                 // deviation cost spent so far in this execution
 	bound     int
 	pruneFrom int // choice points from this index on are not branched (state already visited)
 	visited   map[string]int
@@ -220,6 +221,20 @@ func (c *Ctx) AddExecutions(n int64) {
 	c.st.Executions += n
 	c.st.States += n
 	c.st.Transitions += n
+}
+
+// Case records one (case, outcome) pair of a scenario body that enumerates a
+// finite family of independent runs itself; the number of distinct pairs is
+// added to the distinct / distinct_nontrivial totals of the run.
+func (c *Ctx) Case(desc string, outcome any) {
+	if c.keepLog {
+		return
+	}
+	if c.cases == nil {
+		c.cases = map[string]struct{}{}
+	}
+	h := sha256.Sum256([]byte(fmt.Sprintf("%s => %v", desc, outcome)))
+	c.cases[string(h[:12])] = struct{}{}
 }
 
 // AddDistinct reports distinct non-trivial cases counted by the scenario body
@@ -436,6 +451,10 @@ func (e *explorer) account(c *Ctx, prefixLen int) {
 		if !c.noRerun && len(c.fails) == 0 && (len(st.Samples) < 4 || (st.Distinct%997 == 0 && len(st.Samples) < 8)) {
 			e.sample(c)
 		}
+	}
+	if n := int64(len(c.cases)); n > 0 {
+		st.Distinct += n
+		st.DistinctNT += n
 	}
 	for _, f := range c.fails {
 		e.violation(c, f)
